@@ -20,6 +20,9 @@ type term struct {
 	s    string
 	sort sortKind
 	bits int
+	// set when the term is (= <string atom> "<literal>"): lets decide() pin the atom
+	eqAtom *strAtom
+	eqLit  string
 }
 
 // symInt is a symbolic Go integer of basic kind k (types.Int, types.Uint8, ...).
@@ -44,6 +47,7 @@ type strAtom struct {
 	signed bool   // for isInt
 	dom    []string // finite domain if known (verifOneOf)
 	name   string
+	pin    *string // value fixed by the path condition so far
 }
 
 func kindBits(k types.BasicKind) int {
@@ -128,14 +132,14 @@ func bvConst(x uint64, bits int) term {
 	if bits < 64 {
 		x &= (1 << uint(bits)) - 1
 	}
-	return term{fmt.Sprintf("(_ bv%d %d)", x, bits), sortBV, bits}
+	return term{s: fmt.Sprintf("(_ bv%d %d)", x, bits), sort: sortBV, bits: bits}
 }
 
 func boolConst(b bool) term {
 	if b {
-		return term{"true", sortBool, 0}
+		return term{s: "true", sort: sortBool}
 	}
-	return term{"false", sortBool, 0}
+	return term{s: "false", sort: sortBool}
 }
 
 func smtString(s string) string {
@@ -158,7 +162,7 @@ func smtString(s string) string {
 	return b.String()
 }
 
-func strConst(s string) term { return term{smtString(s), sortStr, 0} }
+func strConst(s string) term { return term{s: smtString(s), sort: sortStr} }
 
 // intTerm lifts a concrete or symbolic Go integer to a bit-vector term.
 func intTerm(v value) term {
@@ -191,7 +195,7 @@ func app(sort sortKind, bits int, op string, args ...term) term {
 		b.WriteString(a.s)
 	}
 	b.WriteByte(')')
-	return term{b.String(), sort, bits}
+	return term{s: b.String(), sort: sort, bits: bits}
 }
 
 func tNot(a term) term {
@@ -202,7 +206,7 @@ func tNot(a term) term {
 		return boolConst(true)
 	}
 	if strings.HasPrefix(a.s, "(not ") {
-		return term{a.s[5 : len(a.s)-1], sortBool, 0}
+		return term{s: a.s[5 : len(a.s)-1], sort: sortBool}
 	}
 	return app(sortBool, 0, "not", a)
 }
@@ -246,11 +250,11 @@ func tResize(a term, srcSigned bool, bits int) term {
 	case a.bits == bits:
 		return a
 	case a.bits > bits:
-		return term{fmt.Sprintf("((_ extract %d 0) %s)", bits-1, a.s), sortBV, bits}
+		return term{s: fmt.Sprintf("((_ extract %d 0) %s)", bits-1, a.s), sort: sortBV, bits: bits}
 	case srcSigned:
-		return term{fmt.Sprintf("((_ sign_extend %d) %s)", bits-a.bits, a.s), sortBV, bits}
+		return term{s: fmt.Sprintf("((_ sign_extend %d) %s)", bits-a.bits, a.s), sort: sortBV, bits: bits}
 	}
-	return term{fmt.Sprintf("((_ zero_extend %d) %s)", bits-a.bits, a.s), sortBV, bits}
+	return term{s: fmt.Sprintf("((_ zero_extend %d) %s)", bits-a.bits, a.s), sort: sortBV, bits: bits}
 }
 
 // ---- strings -------------------------------------------------------------------------------
@@ -272,6 +276,9 @@ func strOf(v value) symStr {
 func (s symStr) norm() value {
 	var out []strPart
 	for _, p := range s.parts {
+		if p.atom != nil && p.atom.pin != nil {
+			p = strPart{lit: *p.atom.pin}
+		}
 		if p.atom == nil {
 			if p.lit == "" {
 				continue
@@ -302,14 +309,14 @@ func (a *strAtom) strTerm() term {
 		return a.t
 	}
 	if !a.signed {
-		return term{fmt.Sprintf("(str.from_int (bv2nat %s))", a.t.s), sortStr, 0}
+		return term{s: fmt.Sprintf("(str.from_int (bv2nat %s))", a.t.s), sort: sortStr}
 	}
 	neg := fmt.Sprintf("(bvslt %s (_ bv0 %d))", a.t.s, a.t.bits)
-	return term{fmt.Sprintf("(ite %s (str.++ \"-\" (str.from_int (bv2nat (bvneg %s)))) (str.from_int (bv2nat %s)))", neg, a.t.s, a.t.s), sortStr, 0}
+	return term{s: fmt.Sprintf("(ite %s (str.++ \"-\" (str.from_int (bv2nat (bvneg %s)))) (str.from_int (bv2nat %s)))", neg, a.t.s, a.t.s), sort: sortStr}
 }
 
 func strTerm(v value) term {
-	s := strOf(v)
+	s := strOf(strOf(v).norm())
 	switch len(s.parts) {
 	case 0:
 		return strConst("")
